@@ -85,7 +85,9 @@ def rule_compiles(ctx: Ctx, rid="C07.SHAPE-COMPILES", strict=True, layouts=None,
         tot = len(irs(ctx))
         good = sum(1 for o, ir, err in irs(ctx) if ir is not None)
         ctx.rep.floor("shape x layout instances", tot, 180)
-        if good * 2 < tot:
+        ev_tot = sum(1 for o, ir, err in irs(ctx) if not o.expose)
+        ev_good = sum(1 for o, ir, err in irs(ctx) if not o.expose and ir is not None)
+        if good * 2 < tot or ev_good * 2 < ev_tot:
             raise AnalysisError(f"only {good} of {tot} shapes compile to the evaluation skeleton: the template rules cannot be "
                                 "decided (see C07 for the reason)")
         ctx.rep.ok(rid, f"{GEN}:PythonCodeGen.generate", f"{good} of {tot} shape instances compile to the evaluation skeleton and "
@@ -94,6 +96,12 @@ def rule_compiles(ctx: Ctx, rid="C07.SHAPE-COMPILES", strict=True, layouts=None,
         return
     n = 0
     unknown_skeleton = []
+    irs(ctx)
+    fails_ = ctx.pipeline.entry_point_failures
+    if fails_:
+        from pyab_static.core import FloorError
+        raise FloorError(f"the library's entry point ({fails_[0][0]}) does steps around parsing and generating that the analyser cannot "
+                         f"follow for {len(fails_)} shape runs ({fails_[0][1][:160]}): what the evaluator executes for those shapes is not known")
     for o, ir, err in irs(ctx):
         if layouts is not None and o.expose not in layouts:
             continue
@@ -1046,17 +1054,43 @@ def trace_generated_text(ctx: Ctx, mod, fn, _depth=0, bindings=None):
     for k in ctor.keywords:
         if k.arg == "expose_experiment_variant_function":
             expose = norm(k.value)
+    # names that carry the experiment text or anything computed from it (the parsed tree, the generator, its output)
+    params = [a.arg for a in fn.args.args + fn.args.kwonlyargs if a.arg not in ("self", "cls")]
+    tainted = set(params[:1])
+    changed_ = True
+    while changed_:
+        changed_ = False
+        for nm_, vals_ in assigns.items():
+            if nm_ not in tainted and any(isinstance(x, ast.Name) and x.id in tainted for v_ in vals_ for x in ast.walk(v_)):
+                tainted.add(nm_)
+                changed_ = True
+
+    def clean(e):
+        return not any(isinstance(x, ast.Name) and x.id in tainted for x in ast.walk(e))
+
+    def gen_like(e, seen=()):
+        """the generator's output, possibly with text in front of / behind it that is computed from none of the tainted names
+        (a banner from a separate parameter): the experiment's own text and tokens reach the module through the generator only"""
+        if e is gen_call or resolve(e) is gen_call:
+            return True
+        if isinstance(e, ast.BinOp) and isinstance(e.op, ast.Add):
+            return (gen_like(e.left, seen) and clean(e.right)) or (clean(e.left) and gen_like(e.right, seen))
+        if isinstance(e, ast.Name) and e.id in assigns:
+            if e.id in seen:
+                return True
+            return all(gen_like(v_, seen + (e.id,)) for v_ in assigns[e.id])
+        return False
     sinks = [n for n in ast.walk(fn) if isinstance(n, ast.Call) and dotted(n.func) in ("compile", "format_str", "black.format_str")]
     for s in sinks:
         name = dotted(s.func)
         arg = resolve(s.args[0]) if s.args else None
-        if arg is not gen_call:
+        if arg is not gen_call and not (s.args and name != "compile" and gen_like(s.args[0])):
             problems.append(f"the text passed to {name}() is not the generator's output alone: {norm(s.args[0])[:100] if s.args else '?'}")
         else:
             wrappers.append(name)
     for r in [n for n in ast.walk(fn) if isinstance(n, ast.Return) and n.value is not None]:
         v = resolve(r.value)
-        if v is gen_call:
+        if v is gen_call or gen_like(r.value):
             continue
         if isinstance(v, ast.Call) and dotted(v.func) in ("format_str", "black.format_str"):
             continue
